@@ -408,8 +408,11 @@ func install(ctx sdk.Context, n *core.Node, w *world, c *clientView) {
 	head := clienttypes.NewHeight(c.rev, c.head)
 	if c.typ == "eth" {
 		ck.SetClientState(ctx, c.name, &ethtypes.ClientState{
-			Header:          ethtypes.Header{Height: head, Root: w.states[stBoundary].root[:]},
-			ChainId:         1, ContractAddress: contractOf(w, c), TrustingPeriod: 1 << 40, TimeDelay: 0, BlockDelay: c.delay,
+			Header:  ethtypes.Header{Height: head, Root: w.states[stBoundary].root[:]},
+			ChainId: 1, ContractAddress: contractOf(w, c), TrustingPeriod: 1 << 40, BlockDelay: c.delay,
+			// a time delay is configurable but is not what this client counts its confirmations in: whatever it says, the
+			// block distance decides (derived from the head so that it differs from the block delay in both directions)
+			TimeDelay: []uint64{0, 0, 1, 600, 1 << 40}[(c.head+uint64(c.rev))%5],
 		})
 	} else {
 		nv := int(c.delay-1) * 2
